@@ -372,7 +372,7 @@ def filter_mc_sharemem(filename, step_size, box_size, cores, shape,
 
     if nslice > 1:
         # box widths should be multiples of the step_size, and not zero
-        width_y = int(max(img_y/nslice/step_size[1], 1) * step_size[1])
+        width_y = int(max(img_y/nslice/step_size[1], 1)) * step_size[1]
 
         # locations of the box edges
         ymins = list(range(0, img_y, width_y))
